@@ -21,7 +21,8 @@ RULE = ("per input format every token string up to the stated length over the fo
         "Formats()) is processed by the real parser/loader in an AddressSanitizer+UBSan build (-fno-sanitize-recover), each "
         "in a forked worker with a watchdog; plus structural stress cases (self-including manifests by include and subninja, "
         "direct and through an intermediate, include nesting depth 1000, rule and file variable cycles, 300 KiB log line, "
-        "deps record at and above the size limit, 20000-line continuation). Verdict: no sanitizer report, abort, stack "
+        "deps record at and above the size limit, 20000-line continuation, a directory where an included file, a subninja file, "
+        "a depfile or a dyndep file is read). Verdict: no sanitizer report, abort, stack "
         "overflow, uncaught exception or timeout; Fatal()/error returns are fine. non-trivial = inputs the parser accepts")
 
 
